@@ -687,6 +687,27 @@ documents in which the independent graph analysis finds Next/First/Kids cycles (
         batch.push(Pending { case_id: c.cur, stream: "chaos".into(), req, doc_targets: targets, hazard: hz }); docs.push(doc);
     }
     run_batch(c, batch, &docs);
+    // ---------------- reference chains around DEREF_LIMIT (dereference: > 128 hops; get_page_contents: < 128)
+    let mut batch = vec![]; let mut docs = vec![];
+    let lens: Vec<usize> = if c.quick() { vec![1, 2, 126, 127, 128, 129, 130, 131, 200] } else { (1..=140).chain([200, 256, 300]).collect() };
+    for (i, len) in lens.iter().enumerate() {
+        let Some(mut r) = c.case("chains", i as u64) else { continue };
+        // 100+len .. 101 form a chain of `len` references ending in the page 3 / in a content stream 50
+        let mut doc = mini(vec![], vec![(50, stream(Dictionary::new(), CONTENT))]);
+        let end = if r.chance(1, 2) { (3, 0) } else { (50, 0) };
+        for k in 1..=*len { doc.objects.insert((100 + k as u32, 0), rf(if k == 1 { end } else { (100 + k as u32 - 1, 0) })); }
+        let top = (100 + *len as u32, 0);
+        doc.objects.insert((3, 0), Object::Dictionary(dict(vec![("Type", name("Page")), ("Parent", rf((2, 0))), ("Contents", rf(if end == (50, 0) { top } else { (50, 0) })),
+            ("Annots", rf(top)), ("Resources", rf(top))])));
+        // a cyclic chain as well
+        doc.objects.insert((60, 0), rf((61, 0))); doc.objects.insert((61, 0), rf((60, 0)));
+        let targets = vec![top, (3, 0), (60, 0), (100 + (*len as u32 + 1) / 2, 0)];
+        let hz = analyse(&doc, &targets);
+        let req = request("all", &targets, &doc);
+        c.nontrivial(&req); c.count("chains.cases");
+        batch.push(Pending { case_id: c.cur, stream: "chains".into(), req, doc_targets: targets, hazard: hz }); docs.push(doc);
+    }
+    run_batch(c, batch, &docs);
     known_streams(c);
 }
 
@@ -750,7 +771,7 @@ fn known_streams(c: &mut Ctx) {
         let fields: Vec<&str> = if kind < 4 { vec!["outl", "toc"] } else if kind == 4 { vec!["dests", "nd:15_0", "outl"] } else { vec!["dests", "toc"] };
         for f in fields {
             let req = request(&format!("one={}", f), &targets, &doc);
-            c.nontrivial(&req); c.count(&format!("cyclic.kind{}", kind));
+            if f == "outl" || f == "dests" { c.nontrivial(&req); } c.count(&format!("cyclic.kind{}", kind));
             batch.push(Pending { case_id: c.cur, stream: "cyclic".into(), req, doc_targets: targets.clone(), hazard: hz.clone() }); docs.push(doc.clone());
         }
     }
@@ -770,7 +791,7 @@ fn known_streams(c: &mut Ctx) {
         let fields: Vec<&str> = if i % 5 == 0 { vec!["pages", "iter", "op:3_0", "toc", "text"] } else { vec!["pages", "iter"] };
         for f in fields {
             let req = request(&format!("one={}", f), &targets, &doc);
-            c.nontrivial(&req); c.count("count.cases");
+            if f == "pages" { c.nontrivial(&req); } c.count("count.cases");
             batch.push(Pending { case_id: c.cur, stream: "count".into(), req, doc_targets: targets.clone(), hazard: hz.clone() }); docs.push(doc.clone());
         }
     }
